@@ -551,9 +551,12 @@ def run(rep, tier, seed, replay=None):
                 tok = ("f%08x" if w == 32 else "d%016x")
                 for _ in range(40 if tier == "quick" else 600):
                     n = rng.choice([2, 2, 3, 5])
-                    shape = rng.choice(["equal", "zeros", "mixed", "mixed"])
+                    shape = rng.choice(["equal", "zeros", "mixed", "mixed", "specials"])
                     if shape == "equal": col = [rng.choice(pool[w])] * n
                     elif shape == "zeros": col = [rng.choice(pool[w][:2]) for _ in range(n)]
+                    elif shape == "specials":      # only values the library's "missing" test is true for: infinities and the largest finite value
+                        sp = [0x7f800000, 0xff800000, 0x7f7fffff] if w == 32 else [0x7ff0000000000000, 0xfff0000000000000, 0x7fefffffffffffff]
+                        col = [rng.choice(sp) for _ in range(n)]
                     else: col = [rng.choice(pool[w]) for _ in range(n)]
                     for comp in (0, 1):
                         cl.append("E 5 %d 4 1001 %d 12101 209000 %d %s" % (comp, 209000 + w, n, " ".join("r%x %s |" % (k + 1, tok % v) for k, v in enumerate(col))))
